@@ -1,0 +1,31 @@
+//go:build verif
+
+package quickbuilder
+
+// Machine-checked contracts for the govc verifier (/verif). This file is comment-only and is
+// compiled only with the "verif" build tag.
+
+//@ props C16
+
+// C16 (ordering also for the quick builder): the quick builder has no storage logic of its own.
+// Store hands its callback a Builder that writes straight to the caller's link system -- nothing is
+// staged, re-ordered or written by Store itself -- and every node constructor delegates to the
+// verified builder of data/builder with exactly that link system and returns a node naming the link
+// that builder returned, i.e. one whose whole DAG is already committed (children before parents).
+//@ func data/builder/quick.Store
+//@ at call dynamic#1 assert the-builder-writes-straight-to-the-callers-store: b.ls == ls
+//@ forbids (*github.com/ipld/go-ipld-prime/linking.LinkSystem).Store (*github.com/ipld/go-ipld-prime/linking.LinkSystem).SetWriteStorage (*github.com/ipld/go-ipld-prime/linking.LinkSystem).SetReadStorage
+
+//@ func (*data/builder/quick.Builder).NewBytesFile
+//@ may_panic
+//@ at call data/builder.BuildUnixFSFile#1 assert built-in-the-builders-own-store: callee_ls == b.ls
+//@ ensures names-a-stored-dag: result != nil && typeis(result, "*data/builder/quick.lnkNode") && stored(result.(*data/builder/quick.lnkNode).link)
+//@ ensures monotone: forall l Ref :: old(stored(l)) ==> stored(l)
+//@ inst monotone: l: l
+
+//@ func (*data/builder/quick.Builder).NewMapDirectory
+//@ may_panic
+//@ at call data/builder.BuildUnixFSDirectory#1 assert built-in-the-builders-own-store: callee_ls == b.ls
+//@ ensures names-a-stored-dag: result != nil ==> typeis(result, "*data/builder/quick.lnkNode") && stored(result.(*data/builder/quick.lnkNode).link)
+//@ ensures monotone: forall l Ref :: old(stored(l)) ==> stored(l)
+//@ inst monotone: l: l
